@@ -5,8 +5,10 @@ event manager and a fake clock; the fired events (with times and thread ids), th
 first raised error are compared with the Lean model M3 (`drivers/Session.lean`).
 Shared by C07 (stream shape), C02 (failure marking) and C06 (cursor locality).
 """
+import errno
 import os
 import queue
+import warnings
 import shutil
 import tempfile
 import threading
@@ -56,11 +58,12 @@ def protocol_following(ops):
     parent = {}
     seen_loc = set()
     att = {}                # tid -> number of `with prepare_attachment` blocks the thread is inside
+    det = {}                # tid -> number of `with lcc.detached_step(..)` blocks the thread is inside
     for op in ops:
         tid, k = op["tid"], op["op"]
         if k == "endStep":
             return False
-        if att.get(tid) and (k in _START_OPS or k in _END_OPS or k == "threadEnd"):
+        if (att.get(tid) or det.get(tid)) and (k in _START_OPS or k in _END_OPS or k == "threadEnd"):
             return False    # a `with` block lies inside the user code of one result / one thread body
         if k in _START_OPS:
             if tid in open_result:
@@ -76,10 +79,18 @@ def protocol_following(ops):
                 return False
             del open_result[tid]
             has_step.discard(tid)
-        elif k == "setStep":
+        elif k in ("setStep", "detachedEnter"):
+            # entering `with lcc.detached_step(d):` IS set_step(d) ...
             if tid not in open_result and tid not in parent:
                 return False
             has_step.add(tid)
+            if k == "detachedEnter":
+                det[tid] = det.get(tid, 0) + 1
+        elif k == "detachedExit":
+            # ... and leaving it does nothing: the step stays current, the thread may go on logging
+            if not det.get(tid):
+                return False
+            det[tid] -= 1
         elif k == "threadRun":
             has_step.add(tid)
         elif k == "threadCreate":
@@ -107,7 +118,7 @@ def protocol_following(ops):
             if not att.get(tid):
                 return False
             att[tid] -= 1
-    return not open_result and not any(kids.values()) and not any(att.values())
+    return not open_result and not any(kids.values()) and not any(att.values()) and not any(det.values())
 
 
 def grammar_failures(prop, ops, fired):
@@ -169,24 +180,86 @@ def grammar_failures(prop, ops, fired):
 
 _RECORD_OPS = ("log", "check", "url", "attach", "attachEnd")
 
+# ---- the names tests give their attachments --------------------------------------------------------------------
+# `filename` of prepare_attachment / save_attachment_* is any string the test likes: the stored name is
+# "%04d_<filename>" (Model/AttachName.lean `stored`), created under <report dir>/attachments/ and referenced under that very
+# name.  ODD: legitimate file names every file system takes (characters with a meaning in URLs, shells, format strings, other
+# scripts, names that look like a stored name, the longest names that still fit: NAME_MAX counts BYTES).  REFUSED: names the
+# file system does not take — longer than NAME_MAX with the counter prefix (ENAMETOOLONG), or not a single path component
+# (ENOENT): the write inside the block raises OSError, the block is left by the exception, nothing is referenced.
+ATT_NAMES_ODD = [
+    "core #1.txt", "100%.txt", "a%20b.txt", "what?.log", "%s %d %(x)s.txt", "a&b=c+d.txt", "two words.txt", " lead.txt", "trail ",
+    "it's \"q\".txt", "\u00fcn\u00ef-\u00e7\u00f8d\u00e9-\u65e5\u672c.txt", "\U0001f600.png", ".hidden", "..", "...", "", "_", "__init__.py",
+    "0002_f.txt", "9999_", "a_b_0001_c.txt", "tab\there.txt", "new\nline.txt", "back\\slash.txt", "semi;colon:.txt", "-rf", "~",
+    "*.txt", "<a href>.html", "{x}[y](z).txt", "$HOME`id`", "x" * 200 + ".txt", "v" * 250, "\u00e9" * 120 + ".txt", "\u00e9" * 125,
+]
+ATT_NAMES_REFUSED = ["w" * 300 + ".txt", "v" * 251, "\u00e9" * 126, "u" * 1000, "sub/dir.txt", "/abs.txt", "a/../b.txt", "x/"]
+NAME_MAX = 255
 
-def step_change_failures(prop, ops, fired):
+
+def stored_name_fits(n, filename):
+    """what Model/AttachName.lean `storable` says (used for FEATURES only, never by an oracle)"""
+    return "/" not in filename and len(("%04d_%s" % (n, filename)).encode("utf-8", "surrogatepass")) <= NAME_MAX
+
+
+def gen_att_name(rng, tame, refused_ok=False, memo=None):
+    """an attachment file name: the tame one (half of the time), an odd one, or (atomic forms only) one the file system refuses —
+    drawn from a short list so that the SAME long name is used by several blocks, threads and tests of a case"""
+    r = rng.random()
+    if r < 0.5:
+        return tame
+    if refused_ok and r < (0.78 if memo else 0.64):
+        if memo and rng.random() < 0.7:
+            return rng.choice(memo)            # the same refused name again (by whichever thread comes next)
+        nm = rng.choice(ATT_NAMES_REFUSED[:3] if rng.random() < 0.6 else ATT_NAMES_REFUSED)
+        if memo is not None:
+            memo.append(nm)
+        return nm
+    return rng.choice(ATT_NAMES_ODD)
+
+
+_NAME_MAX_PROBE = []
+
+
+def fs_name_max_is_255(where):
+    """the file system holding the scratch report directories takes a 255-byte component and refuses a 256-byte one"""
+    if not _NAME_MAX_PROBE:
+        ok = False
+        try:
+            with open(os.path.join(where, "p" * 255), "w"):
+                pass
+            try:
+                with open(os.path.join(where, "p" * 256), "w"):
+                    pass
+            except OSError as e:
+                ok = e.errno == errno.ENAMETOOLONG
+        except OSError:
+            ok = False
+        _NAME_MAX_PROBE.append(ok)
+    return _NAME_MAX_PROBE[0]
+
+
+def step_change_failures(prop, ops, fired, refused=()):
     """C06, "inside the step that was current in the emitting thread … all step changes", on the fired stream of a
     protocol-following call sequence: EVERY set_step call opens a new step.  The k-th record call of a thread (log,
     check, url, attachment) is the k-th record event of that thread; when the thread called set_step(d) since its
     previous record, the stream holds — between that previous record event of the thread (or the beginning) and this
     one — a StepStart of the thread with description d, and the record names step d.  A step change to a step with
-    the same description as the current one is a step change like any other."""
+    the same description as the current one is a step change like any other.  `refused`: indexes of the attachment calls
+    whose write was observed to be refused by the file system (OSError in the block): those record nothing."""
     out = []
+    refused = set(refused)
     rec_events = {}          # tid -> indices of its record events in `fired`
     for i, e in enumerate(fired):
         if e["e"] in ("log", "check", "url", "att"):
             rec_events.setdefault(e["tid"], []).append(i)
     seen = {}                # tid -> number of record calls so far
     pending = {}             # tid -> description of the latest set_step since the thread's previous record
-    for op in ops:
+    for op_i, op in enumerate(ops):
         tid, k = op["tid"], op["op"]
-        if k == "setStep":
+        if op_i in refused:
+            continue
+        if k in ("setStep", "detachedEnter"):
             pending[tid] = op["desc"]
         elif k in _START_OPS or k in _END_OPS or k in ("threadRun", "threadEnd"):
             pending.pop(tid, None)          # the runner / Thread.run set their own steps around these
@@ -295,6 +368,7 @@ def gen_ops(rng, chaos=0.05):
     ops.append({"tid": 1, "op": "startTestSession"})
 
     last_desc = {}      # tid -> the description of the latest set_step of that thread
+    refused_used = []   # the names the file system refuses that the case has used so far
 
     def set_step(tid, desc):
         """a set_step op; about a third of them set the description the thread set last AGAIN (polling loops)"""
@@ -326,7 +400,31 @@ def gen_ops(rng, chaos=0.05):
                     "details": rng.choice([None, "det", ""])}
         if r < 0.84:
             return {"tid": tid, "op": "url", "url": "http://u/%d" % rng.randint(0, 9), "desc": "u"}
-        return {"tid": tid, "op": "attach", "file": "f%d.txt" % rng.randint(0, 3), "desc": "a", "img": rng.random() < 0.3}
+        return {"tid": tid, "op": "attach", "file": gen_att_name(rng, "f%d.txt" % rng.randint(0, 3), refused_ok=True, memo=refused_used),
+                "desc": "a", "img": rng.random() < 0.3}
+
+    def detached_ops(tid, depth):
+        """`with lcc.detached_step(d):` (deprecated, public) around a few calls; mostly the thread goes on logging AFTER the
+        block without another set_step: the record belongs to the step the block set"""
+        d = "det%d" % rng.randint(0, 3) if rng.random() < 0.8 else rng.choice(["", " ", "two\nlines"])
+        last_desc[tid] = d
+        out = [{"tid": tid, "op": "detachedEnter", "desc": d}]
+        for _ in range(rng.randint(0, 3)):
+            r = rng.random()
+            if r < 0.7:
+                out.append(simple_op(tid, rng.random()))
+            elif r < 0.8:
+                out.append(set_step(tid, "in-det%d" % rng.randint(0, 2)))
+            elif r < 0.9:
+                out += window_ops(tid, depth, 1)
+            elif depth < 1:
+                out += spawn(tid, depth)
+        if rng.random() < 0.15:
+            out.append({"tid": tid, "op": "endStepDeprecated"})     # `lcc.end_step(d)` as old code wrote it: does nothing
+        out.append({"tid": tid, "op": "detachedExit"})
+        if rng.random() < 0.75:
+            out.append(simple_op(tid, rng.random()))
+        return out
 
     def window_ops(tid, depth, wdepth=0):
         """`with prepare_attachment(..) as path:` around a body that calls the session api: attachBegin, the body's
@@ -348,7 +446,7 @@ def gen_ops(rng, chaos=0.05):
         # about a quarter of the blocks are left by an exception (`attachAbort`): the body — or `shutil.copy` of
         # `save_attachment_file` on a missing source — raised, mostly BEFORE the file was written (`write: False`)
         abort = rng.random() < 0.25
-        out = [{"tid": tid, "op": "attachBegin", "file": "w%d.bin" % rng.randint(0, 3), "desc": "w%d" % rng.randint(0, 9),
+        out = [{"tid": tid, "op": "attachBegin", "file": gen_att_name(rng, "w%d.bin" % rng.randint(0, 3)), "desc": "w%d" % rng.randint(0, 9),
                 "img": rng.random() < 0.3, "write": (rng.random() < 0.3) if abort else True}]
         out += body
         if not rng.random() < chaos:            # chaos: the block is never left
@@ -363,9 +461,14 @@ def gen_ops(rng, chaos=0.05):
                 out.append(set_step(tid, "step%d" % rng.randint(0, 3)))
             elif r < 0.72:
                 out.append(simple_op(tid, rng.random()))
-            elif r < 0.84:
+                if out[-1]["op"] == "attach" and out[-1]["file"] in refused_used and rng.random() < 0.5:
+                    # a retry under the very same name (what a test does when saving failed), or the next item of a loop
+                    out.append(dict(out[-1]))
+            elif r < 0.82:
                 out += window_ops(tid, depth)
-            elif r < 0.93 and depth < 1:
+            elif r < 0.88:
+                out += detached_ops(tid, depth)
+            elif r < 0.95 and depth < 1:
                 out += spawn(tid, depth)
             elif rng.random() < chaos:
                 out.append({"tid": tid, "op": rng.choice(["endStep", "endStep", "attachEnd", "attachAbort"])})
@@ -474,7 +577,33 @@ def _window_corpus():
 
     def begin_nowrite(tid, f, d, img=False):
         return dict(begin(tid, f, d, img), write=False)
+    att = lambda tid, f, d="a": {"tid": tid, "op": "attach", "file": f, "desc": d, "img": False}
+    enter = lambda tid, d: {"tid": tid, "op": "detachedEnter", "desc": d}
+    leave = lambda tid: {"tid": tid, "op": "detachedExit"}
+    long_name = "w" * 300 + ".txt"
     return [
+        # names with characters that mean something in a URL (minimised failing input of the seeded change C06-11: the event
+        # referenced a percent-escaped name, the file kept the raw one)
+        wrap(test(1, "t1", 1, [step(1, "a"), att(1, "core #1.txt")])),
+        wrap(test(1, "t1", 1, [step(1, "a"), att(1, "100%.txt"), att(1, "a%20b.txt"), att(1, "what?.log"), begin(1, "x#y?z%.bin", "w"),
+                               end(1), att(1, "\u00e9" * 125), att(1, "v" * 250), att(1, ""), att(1, "0002_f.txt"), att(1, "f.txt")])),
+        # the same too-long name twice (minimised failing input of the seeded change C06-12: names cut to their last 255
+        # characters lose the counter): refused by the file system both times — nothing referenced, the counter goes on
+        wrap(test(1, "t1", 1, [step(1, "a"), att(1, long_name), att(1, long_name)])),
+        # ... from two tests running at the same time, an lcc.Thread, ordinary names in between; 256 bytes in 131 characters;
+        # a name that is a path
+        wrap(test(1, "t1", 1, [step(1, "a")])[:-1] + test(2, "t2", 2, [step(2, "b")])[:-1] +
+             [att(1, long_name), att(2, long_name), att(1, "f.txt"), {"tid": 1, "op": "threadCreate", "new": 10},
+              {"tid": 10, "op": "threadRun"}, att(10, long_name), att(10, "\u00e9" * 126), att(2, "sub/dir.txt"), att(2, "f.txt"),
+              {"tid": 10, "op": "threadEnd"},
+              {"tid": 1, "op": "endTest", "path": ["s", "t1"]}, {"tid": 2, "op": "endTest", "path": ["s", "t2"]}]),
+        # `with lcc.detached_step(d):` then a log without another set_step (minimised failing input of the seeded change
+        # C07-11: the block "closed" its step, the log was fired outside any step)
+        wrap(test(1, "t1", 1, [enter(1, "d"), leave(1), log(1, "after")])),
+        wrap(test(1, "t1", 1, [step(1, "a"), log(1, "x"), enter(1, "d"), log(1, "inside"), leave(1), log(1, "after"),
+                               enter(1, "e"), {"tid": 1, "op": "endStepDeprecated"}, log(1, "still in e"), leave(1), enter(1, "e2"), step(1, "inner"), leave(1), att(1, "f.txt"),
+                               {"tid": 1, "op": "threadCreate", "new": 10}, {"tid": 10, "op": "threadRun"},
+                               enter(10, "in thread"), leave(10), log(10, "after in thread"), {"tid": 10, "op": "threadEnd"}])),
         # the step changes inside the block, after a log: a's end, b's start (flushed at exit), attachment under b
         wrap(test(1, "t1", 1, [step(1, "a"), log(1, "x"), begin(1, "f", "d"), step(1, "b"), end(1)])),
         # ... and without the log: the empty step a is elided
@@ -582,6 +711,11 @@ class SessionStream(C.Stream):
         workers = {}
         lccthreads = {}
         open_cms = {}       # tid -> stack of entered `prepare_attachment` context managers
+        open_det = {}       # tid -> stack of entered `detached_step` context managers
+        refused = []        # atomic attachment calls whose write the file system refused (OSError inside the block)
+        if not fs_name_max_is_255(tmp):
+            shutil.rmtree(tmp, ignore_errors=True)
+            raise C.InfraError("sess: the scratch file system does not have NAME_MAX = 255 (Model/AttachName.lean nameMax)")
 
         class NoOpenAttachment(Exception):
             pass
@@ -627,9 +761,40 @@ class SessionStream(C.Stream):
             elif k == "url":
                 session.log_url(op["url"], op["desc"])
             elif k == "attach":
-                with session.prepare_attachment(op["file"], op["desc"], as_image=op["img"]) as path:
+                # `with session.prepare_attachment(..) as path:` around a body that only writes the file (what
+                # save_attachment_content / save_attachment_file are).  When the file system refuses the name the write raises
+                # OSError inside the block: the exception is thrown into the context manager, which must let it through, and is
+                # handled by the test code around the block (classified: part of the observation)
+                cm = session.prepare_attachment(op["file"], op["desc"], as_image=op["img"])
+                path = cm.__enter__()
+                try:
                     with open(path, "w") as fh:
                         fh.write(_att_content(path))
+                except OSError as e:
+                    if cm.__exit__(OSError, e, e.__traceback__):
+                        raise AbortSwallowed()
+                    refused.append({"i": next(i for i, o in enumerate(case["ops"]) if o is op), "file": op["file"],
+                                    "errno": errno.errorcode.get(e.errno, str(e.errno))})
+                else:
+                    cm.__exit__(None, None, None)
+            elif k == "detachedEnter":
+                # entering `with lcc.detached_step(d):` — the public (deprecated) context manager of lemoncheesecake.api
+                with warnings.catch_warnings():
+                    warnings.simplefilter("ignore")
+                    cm = S.detached_step(op["desc"])
+                    cm.__enter__()
+                open_det.setdefault(op["tid"], []).append(cm)
+            elif k == "endStepDeprecated":
+                # `lcc.end_step(step)`: "deprecated since version 1.4.5, it actually does nothing"
+                with warnings.catch_warnings():
+                    warnings.simplefilter("ignore")
+                    S.end_step(op.get("desc", "whatever"))
+            elif k == "detachedExit":
+                stack = open_det.get(op["tid"])
+                if stack:                       # (leaving a block that was never entered is not expressible: nothing happens)
+                    with warnings.catch_warnings():
+                        warnings.simplefilter("ignore")
+                        stack.pop().__exit__(None, None, None)
             elif k == "attachBegin":
                 # entering `with session.prepare_attachment(..) as path:` — the body (the following ops of this
                 # thread up to the matching attachEnd) runs with the context manager suspended at its `yield`
@@ -751,7 +916,7 @@ class SessionStream(C.Stream):
             shutil.rmtree(tmp, ignore_errors=True)
         failures = sorted((R.canon_location(l) for l in failures_now), key=lambda x: C.case_hash(x))
         return {"fired": fired_snapshot, "failures": failures, "error": error, "accepted": accepted,
-                "att_files": att_files[:sum(1 for e in fired_snapshot if e["e"] == "att")]}
+                "att_files": att_files[:sum(1 for e in fired_snapshot if e["e"] == "att")], "refused": refused}
 
     # ---- oracle (statement-level facts on the real stream only) -------------------------------------
     def oracle(self, case, obs):
@@ -837,6 +1002,38 @@ class SessionStream(C.Stream):
                 last[op["tid"]] = op["desc"]
             elif op["op"] in _START_OPS or op["op"] in _END_OPS:
                 last.pop(op["tid"], None)
+        # attachment names: the classes of ATT_NAMES_ODD / ATT_NAMES_REFUSED that were used, pairs of equal long names
+        names = [op["file"] for op in case["ops"] if op["op"] in ("attach", "attachBegin")]
+        for nm in set(names):
+            if nm in ATT_NAMES_ODD or nm in ATT_NAMES_REFUSED:
+                f.append("att-name:odd")
+            if any(ch in nm for ch in "%#?"):
+                f.append("att-name:url-special(%#?)")
+            if any(ord(ch) > 127 for ch in nm):
+                f.append("att-name:non-ascii")
+            if len(nm) >= 200:
+                f.append("att-name:long>=200")
+            if "/" in nm:
+                f.append("att-name:path-separator")
+            if nm.startswith("."):
+                f.append("att-name:leading-dot")
+            if len(nm) > 250 and names.count(nm) >= 2:
+                f.append("att-name:same-too-long-name-twice")
+                if len({op["tid"] for op in case["ops"] if op.get("file") == nm}) >= 2:
+                    f.append("att-name:same-too-long-name-from-two-threads")
+        for r in obs.get("refused", []):
+            f.append("att-refused:" + r["errno"])
+        # `with lcc.detached_step(..)` blocks, and what the thread does right after leaving one
+        ops = case["ops"]
+        for i, op in enumerate(ops):
+            if op["op"] == "endStepDeprecated":
+                f.append("deprecated-end_step")
+            if op["op"] == "detachedExit":
+                f.append("detached_step")
+                nxt = next((o for o in ops[i + 1:] if o["tid"] == op["tid"]), None)
+                if nxt is not None and nxt["op"] in _RECORD_OPS:
+                    f.append("detached_step+record-right-after" + ("(oracle-checked)" if obs["error"] is None and protocol_following(ops) else ""))
+        f = sorted(set(f))
         kinds = {e["e"] for e in obs["fired"]}
         f += sorted("ev=" + k for k in kinds if k in ("stepStart", "sessionSetupStart", "suiteSetupStart", "att", "testSkipped"))
         return f
